@@ -70,7 +70,7 @@ func (c Config) next(i int) int {
 			return -1
 		}
 		_ = c[i+2]
-		return i + 3 + int(c[i+2]) | int(c[i+1])<<8
+		return i + 3 + (int(c[i+2]) | int(c[i+1])<<8)
 	case valAES:
 		if i+3 >= len(c) {
 			return -1
@@ -88,7 +88,7 @@ func (c Config) next(i int) int {
 			return -1
 		}
 		_ = c[i+3]
-		return i + 4 + int(c[i+3]) | int(c[i+2])<<8
+		return i + 4 + (int(c[i+3]) | int(c[i+2])<<8)
 	case valTLSCert:
 		if i+6 >= len(c) {
 			return -1
